@@ -481,13 +481,115 @@ fn in_ranges(r: &[(usize, usize)], p: usize) -> bool {
 
 // ---------------------------------------------------------------- caches
 
+/// One planned misbehaviour of the backing store during a single validating call: at the `n`-th
+/// read of `key` made by that call the store answers `alt` (`None` = the entry is gone) instead of
+/// what it holds — `put`: the store really is rewritten just before that read (a concurrent put /
+/// another process rewriting the DiskCache file / an entry that expired: later reads and later
+/// calls see it too); otherwise only that one read is affected (a transient read fault).
+struct Fault {
+    key: String,
+    n: usize,
+    put: bool,
+    alt: Option<Vec<u8>>,
+}
+
+/// Harness-owned `AsyncCache` around the REAL `DiskCache`: `ContentAddressedCache` is generic over
+/// its inner cache, so every read it makes of the backing store goes through here, is counted, and
+/// can be made to see a store that changed since the previous read of the same call.
+struct Faulty {
+    inner: DiskCache<BlteBlockKey>,
+    fault: Mutex<Option<Fault>>,
+    reads: AtomicUsize,
+}
+
+type BoxFut<'a, T> = std::pin::Pin<Box<dyn std::future::Future<Output = T> + Send + 'a>>;
+
+// (the expansion of `#[async_trait]`, written out: the harness crate has no async-trait dependency)
+impl AsyncCache<BlteBlockKey> for Faulty {
+    fn get<'life0, 'life1, 'async_trait>(&'life0 self, key: &'life1 BlteBlockKey) -> BoxFut<'async_trait, CacheResult<Option<Bytes>>>
+    where
+        'life0: 'async_trait,
+        'life1: 'async_trait,
+        Self: 'async_trait,
+    {
+        Box::pin(async move {
+            let k = self.reads.fetch_add(1, Ordering::SeqCst) + 1;
+            let plan = self.fault.lock().expect("fault plan").as_ref().filter(|f| f.key == key.as_cache_key() && f.n == k).map(|f| (f.put, f.alt.clone()));
+            if let Some((put, alt)) = plan {
+                if !put {
+                    return Ok(alt.map(Bytes::from));
+                }
+                match alt {
+                    Some(b) => self.inner.put(key.clone(), Bytes::from(b)).await?,
+                    None => {
+                        self.inner.remove(key).await?;
+                    }
+                }
+            }
+            self.inner.get(key).await
+        })
+    }
+    fn put<'life0, 'async_trait>(&'life0 self, key: BlteBlockKey, value: Bytes) -> BoxFut<'async_trait, CacheResult<()>>
+    where
+        'life0: 'async_trait,
+        Self: 'async_trait,
+    {
+        Box::pin(async move { self.inner.put(key, value).await })
+    }
+    fn put_with_ttl<'life0, 'async_trait>(&'life0 self, key: BlteBlockKey, value: Bytes, ttl: std::time::Duration) -> BoxFut<'async_trait, CacheResult<()>>
+    where
+        'life0: 'async_trait,
+        Self: 'async_trait,
+    {
+        Box::pin(async move { self.inner.put_with_ttl(key, value, ttl).await })
+    }
+    fn contains<'life0, 'life1, 'async_trait>(&'life0 self, key: &'life1 BlteBlockKey) -> BoxFut<'async_trait, CacheResult<bool>>
+    where
+        'life0: 'async_trait,
+        'life1: 'async_trait,
+        Self: 'async_trait,
+    {
+        Box::pin(async move { self.inner.contains(key).await })
+    }
+    fn remove<'life0, 'life1, 'async_trait>(&'life0 self, key: &'life1 BlteBlockKey) -> BoxFut<'async_trait, CacheResult<bool>>
+    where
+        'life0: 'async_trait,
+        'life1: 'async_trait,
+        Self: 'async_trait,
+    {
+        Box::pin(async move { self.inner.remove(key).await })
+    }
+    fn clear<'life0, 'async_trait>(&'life0 self) -> BoxFut<'async_trait, CacheResult<()>>
+    where
+        'life0: 'async_trait,
+        Self: 'async_trait,
+    {
+        Box::pin(async move { self.inner.clear().await })
+    }
+    fn stats<'life0, 'async_trait>(&'life0 self) -> BoxFut<'async_trait, CacheResult<CacheStats>>
+    where
+        'life0: 'async_trait,
+        Self: 'async_trait,
+    {
+        Box::pin(async move { self.inner.stats().await })
+    }
+    fn size<'life0, 'async_trait>(&'life0 self) -> BoxFut<'async_trait, CacheResult<usize>>
+    where
+        'life0: 'async_trait,
+        Self: 'async_trait,
+    {
+        Box::pin(async move { self.inner.size().await })
+    }
+}
+
 struct Caches {
     rt: tokio::runtime::Runtime,
     _dir: tempfile::TempDir,
     ml: MultiLayerCacheImpl<ContentCacheKey>,
     layers: usize,
     disk_dir: std::path::PathBuf,
-    ca: ContentAddressedCache<DiskCache<BlteBlockKey>>,
+    ca: ContentAddressedCache<Faulty>,
+    ca_store: Arc<Faulty>,
     ca_dir: std::path::PathBuf,
     hooks: bool,
 }
@@ -505,15 +607,15 @@ impl Caches {
         if layers == 2 {
             cfg = cfg.add_disk_layer(DiskCacheConfig::new(disk_dir.clone()).with_subdirectories(false, 0));
         }
-        let (ml, ca) = rt.block_on(async {
+        let (ml, ca, ca_store) = rt.block_on(async {
             let mut ml = MultiLayerCacheImpl::<ContentCacheKey>::new(cfg).expect("multi-layer cache");
             if hooks {
                 ml.set_validation_hooks(Some(Arc::new(Md5ValidationHooks::new())));
             }
-            let inner = Arc::new(DiskCache::<BlteBlockKey>::new(DiskCacheConfig::new(ca_dir.clone()).with_subdirectories(false, 0)).expect("disk cache"));
-            (ml, ContentAddressedCache::new(inner, Arc::new(NgdpValidationHooks::new())))
+            let inner = Arc::new(Faulty { inner: DiskCache::<BlteBlockKey>::new(DiskCacheConfig::new(ca_dir.clone()).with_subdirectories(false, 0)).expect("disk cache"), fault: Mutex::new(None), reads: AtomicUsize::new(0) });
+            (ml, ContentAddressedCache::new(inner.clone(), Arc::new(NgdpValidationHooks::new())), inner)
         });
-        Some(Caches { rt, _dir: dir, ml, layers, disk_dir, ca, ca_dir, hooks })
+        Some(Caches { rt, _dir: dir, ml, layers, disk_dir, ca, ca_store, ca_dir, hooks })
     }
 }
 
@@ -909,8 +1011,13 @@ impl Interp {
         let ckey = |b: &[u8]| key16(b).map(|k| ContentCacheKey::new(ContentKey::from_bytes(k)));
         let resp: String = match t {
             ["putv", k, ck, v] => match (unhex(k).and_then(|b| ckey(&b)), unhex(ck).and_then(|b| key16(&b)), unhex(v)) {
-                (Some(k), Some(ck), Some(v)) => match c.rt.block_on(c.ml.put_with_validation(k, ContentKey::from_bytes(ck), Bytes::from(v))) {
-                    Ok(_) => "ok".into(),
+                (Some(k), Some(ck), Some(v)) => match c.rt.block_on(c.ml.put_with_validation(k, ContentKey::from_bytes(ck), Bytes::from(v.clone()))) {
+                    Ok(_) => {
+                        if c.hooks && v.len() <= SKIP_ABOVE && md5::compute(&v).0 != ck {
+                            s.oracle_fail("validated-put-accepted-wrong-bytes", &format!("put_with_validation stored {} bytes whose MD5 {} is not the content key {} (the comparison is weaker than equality)", v.len(), hex(&md5::compute(&v).0), hex(&ck)), &replay);
+                        }
+                        "ok".into()
+                    }
                     Err(cascette_cache::error::CacheError::ContentValidationFailed(_)) => "err:validation".into(),
                     Err(_) => "err:other".into(),
                 },
@@ -970,8 +1077,13 @@ impl Interp {
                 None => "bad-op".into(),
             },
             ["caput", ck, v] => match (unhex(ck).and_then(|b| key16(&b)), unhex(v)) {
-                (Some(ck), Some(v)) => match c.rt.block_on(c.ca.put_validated(ContentKey::from_bytes(ck), Bytes::from(v))) {
-                    Ok(()) => "ok".into(),
+                (Some(ck), Some(v)) => match c.rt.block_on(c.ca.put_validated(ContentKey::from_bytes(ck), Bytes::from(v.clone()))) {
+                    Ok(()) => {
+                        if md5::compute(&v).0 != ck {
+                            s.oracle_fail("validated-put-accepted-wrong-bytes", &format!("ContentAddressedCache::put_validated stored {} bytes whose MD5 {} is not the content key {} (the comparison is weaker than equality)", v.len(), hex(&md5::compute(&v).0), hex(&ck)), &replay);
+                        }
+                        "ok".into()
+                    }
                     Err(cascette_cache::error::NgdpCacheError::ContentValidationFailed(_)) => "err:validation".into(),
                     Err(_) => "err:other".into(),
                 },
@@ -1003,6 +1115,94 @@ impl Interp {
                 },
                 None => "bad-op".into(),
             },
+            // get_with_validation while the backing file of the disk layer is rewritten DURING the call,
+            // at the crate's own schedule points inside DiskCache::get (cargo feature `hooks` →
+            // cascette-cache/verif-hooks): m = 0 at the first `disk.get.before_read`, m = 1, 2 at the
+            // m-th `disk.get.before_touch` (= right after the m-th completed read of the file)
+            ["getvf", k, ck, m, alt] => {
+                match (unhex(k).and_then(|b| ckey(&b)), unhex(ck).and_then(|b| key16(&b)), m.parse::<usize>().ok(), unhex(alt)) {
+                    (Some(k), Some(ck), Some(m), Some(alt)) if c.layers == 2 && m <= 2 => {
+                        #[cfg(feature = "hooks")]
+                        {
+                            let path = c.disk_dir.join(k.as_cache_key());
+                            let reads = Arc::new(AtomicUsize::new(0));
+                            let touches = Arc::new(AtomicUsize::new(0));
+                            let (r2, t2) = (reads.clone(), touches.clone());
+                            cascette_cache::verif_hooks::install(Some(Arc::new(move |site: &'static str| match site {
+                                "disk.get.before_read" => {
+                                    if r2.fetch_add(1, Ordering::SeqCst) == 0 && m == 0 {
+                                        std::fs::write(&path, &alt).expect("rewrite backing file");
+                                    }
+                                }
+                                "disk.get.before_touch" => {
+                                    if t2.fetch_add(1, Ordering::SeqCst) + 1 == m {
+                                        std::fs::write(&path, &alt).expect("rewrite backing file");
+                                    }
+                                }
+                                _ => {}
+                            })));
+                            let r = c.rt.block_on(c.ml.get_with_validation(&k, Some(ContentKey::from_bytes(ck))));
+                            cascette_cache::verif_hooks::install(None);
+                            let dreads = reads.load(Ordering::SeqCst);
+                            let out = match r {
+                                Ok(None) => "none".to_string(),
+                                Ok(Some(nb)) => {
+                                    let v = nb.as_bytes().to_vec();
+                                    if c.hooks && v.len() <= SKIP_ABOVE && md5::compute(&v).0 != ck {
+                                        s.oracle_fail("validated-get-returned-unvalidated-bytes", &format!("get_with_validation read the disk layer's file {dreads} time(s) while it was rewritten ({}) and handed out {} bytes whose MD5 {} is not the content key {}: the bytes returned are not the bytes that were hashed", if m == 0 { "before the first read".to_string() } else { format!("after read {m}") }, v.len(), hex(&md5::compute(&v).0), hex(&ck)), &replay);
+                                    }
+                                    format!("hit {}", hex(&v))
+                                }
+                                Err(cascette_cache::error::CacheError::Corruption(_)) => {
+                                    for i in 0..c.layers {
+                                        if let Ok(Some(_)) = c.rt.block_on(c.ml.get_from_layer(&k, i)) {
+                                            s.oracle_fail("corrupt-entry-not-removed", &format!("after a failed validation the key is still in layer {i}"), &replay);
+                                        }
+                                    }
+                                    "err:corruption".into()
+                                }
+                                Err(_) => "err:other".into(),
+                            };
+                            format!("{out} dreads={dreads}")
+                        }
+                        #[cfg(not(feature = "hooks"))]
+                        {
+                            let _ = (k, ck, m, alt);
+                            "no-hooks-feature".to_string()
+                        }
+                    }
+                    _ => "bad-op".into(),
+                }
+            }
+            // get_validated while the backing store changes DURING the call: at the n-th read of the
+            // key the store answers `alt`. Whatever is handed out must hash to the requested key — it
+            // has to be the very buffer that was hashed, not a later read of the store
+            ["cagetf", ck, n, mode, alt] => {
+                let altv = if *alt == "none" { Some(None) } else { unhex(alt).map(Some) };
+                match (unhex(ck).and_then(|b| key16(&b)), n.parse::<usize>().ok(), *mode == "put" || *mode == "once", altv) {
+                    (Some(ck), Some(n), true, Some(altv)) if (1..=3).contains(&n) => {
+                        let key = BlteBlockKey::new_raw(ContentKey::from_bytes(ck), 0);
+                        *c.ca_store.fault.lock().expect("fault plan") = Some(Fault { key: key.as_cache_key().to_string(), n, put: *mode == "put", alt: altv });
+                        c.ca_store.reads.store(0, Ordering::SeqCst);
+                        let r = c.rt.block_on(c.ca.get_validated(ContentKey::from_bytes(ck)));
+                        let reads = c.ca_store.reads.load(Ordering::SeqCst);
+                        *c.ca_store.fault.lock().expect("fault plan") = None;
+                        let out = match r {
+                            Ok(None) => "none".to_string(),
+                            Ok(Some(v)) => {
+                                if md5::compute(&v).0 != ck {
+                                    s.oracle_fail("validated-get-returned-unvalidated-bytes", &format!("ContentAddressedCache::get_validated made {reads} read(s) of the backing store, which answered differently at read {n}, and handed out {} bytes whose MD5 {} is not the content key {}: the bytes returned are not the bytes that were hashed", v.len(), hex(&md5::compute(&v).0), hex(&ck)), &replay);
+                                }
+                                format!("hit {}", hex(&v))
+                            }
+                            Err(cascette_cache::error::NgdpCacheError::ContentValidationFailed(_)) => "err:validation".into(),
+                            Err(_) => "err:other".into(),
+                        };
+                        format!("{out} reads={reads}")
+                    }
+                    _ => "bad-op".into(),
+                }
+            }
             // size exemption of the validating read: a value of `n` zero bytes is written raw into
             // layer 0 and read back under a content key that is NOT its MD5
             ["big", n] => match n.parse::<usize>().ok() {
@@ -1336,6 +1536,261 @@ fn mutate_case(s: &mut Session, it: &mut Interp, rng: &mut Rng, begin: String, p
     }
 }
 
+/// "Comparison weaker than equality" families on one artifact: at every position of `all_at`
+/// every one of the 255 other byte values; for every pair of `pairs` three two-byte substitutions
+/// whose differences cancel under an XOR fold (`a^d, b^d`), a sum fold (`a+d, b-d`) and a
+/// difference fold (`a+d, b+d`). Every accepted corruption is an oracle failure with its replay.
+fn family_case(s: &mut Session, it: &mut Interp, rng: &mut Rng, begin: String, all_at: &[usize], pairs: &[(usize, usize)]) {
+    family_case_with(s, it, rng, begin, all_at, &[], pairs);
+}
+
+/// … `some_at`: positions with an explicit list of substituted values
+fn family_case_with(s: &mut Session, it: &mut Interp, rng: &mut Rng, begin: String, all_at: &[usize], some_at: &[(usize, Vec<u8>)], pairs: &[(usize, usize)]) {
+    it.exec(s, &begin);
+    it.exec(s, "load");
+    let ok = it.base_eval.as_ref().map(|e| e.accepted).unwrap_or(false);
+    if !ok {
+        s.oracle_fail("base-artifact-rejected", &format!("a valid {} artifact from the crate's builder is rejected: {}", it.kind, it.base_eval.as_ref().map(|e| e.resp.clone()).unwrap_or_default()), &[begin.clone(), "load".into()]);
+    }
+    let n = it.base.len();
+    for p in all_at.iter().copied().filter(|p| *p < n) {
+        for x in 0..256usize {
+            if x as u8 != it.base[p] {
+                it.exec(s, &format!("sub {p} {x}"));
+            }
+        }
+        s.tally(&format!("family:{}:all-values-at-position", it.kind));
+    }
+    for (p, vals) in some_at.iter().filter(|(p, _)| *p < n) {
+        for x in vals {
+            if *x != it.base[*p] {
+                it.exec(s, &format!("sub {p} {x}"));
+            }
+        }
+        s.tally(&format!("family:{}:value-classes-at-position", it.kind));
+    }
+    for (i, j) in pairs.iter().copied().filter(|(i, j)| *i < n && *j < n && i != j) {
+        let d = rng.range(1, 255) as u8;
+        let (a, b) = (it.base[i], it.base[j]);
+        it.exec(s, &format!("sub2 {i} {} {j} {}", a ^ d, b ^ d));
+        it.exec(s, &format!("sub2 {i} {} {j} {}", a.wrapping_add(d), b.wrapping_sub(d)));
+        it.exec(s, &format!("sub2 {i} {} {j} {}", a.wrapping_add(d), b.wrapping_add(d)));
+        s.tally(&format!("family:{}:cancelling-pair", it.kind));
+    }
+}
+
+/// all pairs inside [lo,hi)
+fn pairs_in(lo: usize, hi: usize) -> Vec<(usize, usize)> {
+    (lo..hi).flat_map(|i| (i + 1..hi).map(move |j| (i, j))).collect()
+}
+
+/// `k` random pairs inside [lo,hi)
+fn random_pairs(rng: &mut Rng, lo: usize, hi: usize, k: usize) -> Vec<(usize, usize)> {
+    (0..k).map(|_| (rng.range(lo as u64, hi as u64 - 1) as usize, rng.range(lo as u64, hi as u64 - 1) as usize)).filter(|(i, j)| i != j).collect()
+}
+
+/// `k` distinct random positions inside [lo,hi)
+fn random_positions(rng: &mut Rng, lo: usize, hi: usize, k: usize) -> Vec<usize> {
+    let mut v: Vec<usize> = (0..k).map(|_| rng.range(lo as u64, hi as u64 - 1) as usize).collect();
+    v.sort_unstable();
+    v.dedup();
+    v
+}
+
+/// the content-key comparison of the validating caches under the same families: every single-byte
+/// substitution of the KEY (put side) and of the VALUE (get side, written behind the cache's back),
+/// and cancelling pairs of both
+fn cache_equality_families(s: &mut Session, it: &mut Interp, rng: &mut Rng, th: bool) {
+    it.exec(s, &format!("begin cache hooks=1 skip={SKIP_ABOVE} layers=1"));
+    let k = hex(&rng.bytes(16));
+    let v = rng.bytes(12);
+    let c = md5::compute(&v).0.to_vec();
+    let mut keys: Vec<Vec<u8>> = vec![];
+    for p in 0..16 {
+        for x in 0..256usize {
+            if x as u8 != c[p] {
+                let mut c2 = c.clone();
+                c2[p] = x as u8;
+                keys.push(c2);
+            }
+        }
+    }
+    for (i, j) in pairs_in(0, 16) {
+        let d = rng.range(1, 255) as u8;
+        for (a, b) in [(c[i] ^ d, c[j] ^ d), (c[i].wrapping_add(d), c[j].wrapping_sub(d)), (c[i].wrapping_add(d), c[j].wrapping_add(d))] {
+            let mut c2 = c.clone();
+            c2[i] = a;
+            c2[j] = b;
+            keys.push(c2);
+        }
+    }
+    let mut vals: Vec<Vec<u8>> = vec![];
+    for p in 0..v.len() {
+        for x in 0..256usize {
+            if x as u8 != v[p] {
+                let mut v2 = v.clone();
+                v2[p] = x as u8;
+                vals.push(v2);
+            }
+        }
+    }
+    for (i, j) in pairs_in(0, v.len()) {
+        let d = rng.range(1, 255) as u8;
+        for (a, b) in [(v[i] ^ d, v[j] ^ d), (v[i].wrapping_add(d), v[j].wrapping_sub(d)), (v[i].wrapping_add(d), v[j].wrapping_add(d))] {
+            let mut v2 = v.clone();
+            v2[i] = a;
+            v2[j] = b;
+            vals.push(v2);
+        }
+    }
+    // every key substitution on both put paths; every value substitution on the multi-layer read,
+    // in quick every third one on the (file-backed) content-addressed read
+    for c2 in &keys {
+        it.exec(s, &format!("putv {k} {} {}", hex(c2), hex(&v)));
+        it.exec(s, &format!("caput {} {}", hex(c2), hex(&v)));
+    }
+    s.tally("family:cache:key-substitutions");
+    // honest entries, then every corruption of the stored value behind the caches' backs
+    it.exec(s, &format!("putv {k} {} {}", hex(&c), hex(&v)));
+    it.exec(s, &format!("caput {} {}", hex(&c), hex(&v)));
+    for (idx, v2) in vals.iter().enumerate() {
+        it.exec(s, &format!("putl 0 {k} {}", hex(v2)));
+        it.exec(s, &format!("getv {k} {}", hex(&c)));
+        if th || idx % 3 == 0 {
+            it.exec(s, &format!("cacorrupt {} {}", hex(&c), hex(v2)));
+            it.exec(s, &format!("caget {}", hex(&c)));
+        }
+    }
+    s.tally("family:cache:value-substitutions");
+    // the honest value still reads back
+    it.exec(s, &format!("putv {k} {} {}", hex(&c), hex(&v)));
+    it.exec(s, &format!("getv {k} {}", hex(&c)));
+    it.exec(s, &format!("cacorrupt {} {}", hex(&c), hex(&v)));
+    it.exec(s, &format!("caget {}", hex(&c)));
+    s.case(Some(&format!("cache-equality {k}")));
+    it.accepted_any = false;
+}
+
+/// ContentAddressedCache::get_validated while the backing store changes DURING the call: for the
+/// n-th read (n = 1, 2, 3) × {the store is rewritten before it, only that read is affected} × what
+/// the store answers instead (one bit flipped, truncated, extended, another value, the entry gone,
+/// the same bytes) × {the store holds the honest entry at the start, it was already damaged}.
+/// Each plan is followed by a plain read.
+fn cache_fault_family(s: &mut Session, it: &mut Interp, rng: &mut Rng, rounds: usize) {
+    let mut text = String::new();
+    for _ in 0..rounds {
+        let v = { let n = rng.range(1, 60) as usize; rng.bytes(n) };
+        let c = hex(&md5::compute(&v).0);
+        let mut alts: Vec<String> = vec![];
+        let mut w = v.clone();
+        let p = rng.below(w.len() as u64) as usize;
+        w[p] ^= 1 << rng.below(8);
+        alts.push(hex(&w));
+        alts.push(hex(&v[..v.len() / 2]));
+        let mut w = v.clone();
+        w.push(rng.byte());
+        alts.push(hex(&w));
+        alts.push(hex(&{ let n = rng.range(1, 60) as usize; rng.bytes(n) }));
+        alts.push("none".into());
+        alts.push(hex(&v));
+        for n in 1..=3usize {
+            // (a case of its own per read index keeps a replay short)
+            it.exec(s, &format!("begin cache hooks=1 skip={SKIP_ABOVE} layers=1"));
+            for mode in ["put", "once"] {
+                for alt in &alts {
+                    // the store holds the honest entry when the call starts — or was already damaged
+                    // (differently from `alt`) behind the cache's back
+                    for damaged in [false, true] {
+                        let mut lines = vec![format!("caput {c} {}", hex(&v))];
+                        if damaged {
+                            let mut w0 = v.clone();
+                            w0.extend_from_slice(&[0xAA, 0x55]);
+                            lines.push(format!("cacorrupt {c} {}", hex(&w0)));
+                        }
+                        lines.push(format!("cagetf {c} {n} {mode} {alt}"));
+                        lines.push(format!("caget {c}"));
+                        for line in lines {
+                            text.push_str(&line);
+                            text.push('\n');
+                            it.exec(s, &line);
+                        }
+                        s.tally(&format!("family:cache:store-changes-at-read-{n}:{mode}:{}", if damaged { "start-damaged" } else { "start-honest" }));
+                    }
+                }
+            }
+        }
+        // a key that was never stored, and one whose entry appears only at the n-th read
+        let other = { let n = rng.range(1, 60) as usize; rng.bytes(n) };
+        let oc = hex(&md5::compute(&other).0);
+        it.exec(s, &format!("begin cache hooks=1 skip={SKIP_ABOVE} layers=1"));
+        for n in 1..=3usize {
+            for (mode, alt) in [("put", hex(&other)), ("once", hex(&other)), ("once", hex(&v)), ("put", "none".to_string())] {
+                for line in [format!("cagetf {oc} {n} {mode} {alt}"), format!("caget {oc}"), format!("cacorrupt {oc} {}", hex(&v)), format!("caget {oc}")] {
+                    text.push_str(&line);
+                    text.push('\n');
+                    it.exec(s, &line);
+                }
+            }
+        }
+    }
+    s.case(Some(&text));
+    it.accepted_any = false;
+}
+
+/// MultiLayerCacheImpl::get_with_validation (memory + disk, MD5 hooks) while the disk layer's
+/// backing file is rewritten DURING the call: before its first read of the file / after its first /
+/// after a second read × what is written (one bit flipped, truncated, extended, another value, the
+/// same bytes) × {honest file at the start, already damaged file, key also in the memory layer}.
+fn ml_fault_family(s: &mut Session, it: &mut Interp, rng: &mut Rng, rounds: usize) {
+    let mut text = String::new();
+    for _ in 0..rounds {
+        let k = hex(&rng.bytes(16));
+        let k2 = hex(&rng.bytes(16));
+        let v = { let n = rng.range(1, 60) as usize; rng.bytes(n) };
+        let c = hex(&md5::compute(&v).0);
+        let mut alts: Vec<String> = vec![];
+        let mut w = v.clone();
+        let p = rng.below(w.len() as u64) as usize;
+        w[p] ^= 1 << rng.below(8);
+        alts.push(hex(&w));
+        alts.push(hex(&v[..v.len() / 2]));
+        let mut w = v.clone();
+        w.push(rng.byte());
+        alts.push(hex(&w));
+        alts.push(hex(&{ let n = rng.range(1, 60) as usize; rng.bytes(n) }));
+        alts.push(hex(&v));
+        let mut w0 = v.clone();
+        w0.extend_from_slice(&[0xAA, 0x55]);
+        for m in 0..=2usize {
+            it.exec(s, &format!("begin cache hooks=1 skip={SKIP_ABOVE} layers=2"));
+            for alt in &alts {
+                for start in ["honest", "damaged", "in-memory"] {
+                    // (a key of its own for the in-memory start: it stays in the memory layer)
+                    let k = if start == "in-memory" { &k2 } else { &k };
+                    let mut lines = vec![format!("putl 1 {k} {}", hex(&v))];
+                    match start {
+                        "damaged" => lines.push(format!("corrupt 1 {k} {}", hex(&w0))),
+                        "in-memory" => lines.push(format!("putv {k} {c} {}", hex(&v))),
+                        _ => {}
+                    }
+                    lines.push(format!("getvf {k} {c} {m} {alt}"));
+                    lines.push(format!("has {k}"));
+                    lines.push(format!("getv {k} {c}"));
+                    lines.push(format!("getv {k} {c}"));
+                    for line in lines {
+                        text.push_str(&line);
+                        text.push('\n');
+                        it.exec(s, &line);
+                    }
+                    s.tally(&format!("family:cache:disk-file-rewritten:{}:{start}", if m == 0 { "before-read".to_string() } else { format!("after-read-{m}") }));
+                }
+            }
+        }
+    }
+    s.case(Some(&text));
+    it.accepted_any = false;
+}
+
 fn cache_history(s: &mut Session, it: &mut Interp, rng: &mut Rng, hooks: bool, layers: usize, ops: usize) {
     it.exec(s, &format!("begin cache hooks={} skip={} layers={}", u8::from(hooks), SKIP_ABOVE, layers));
     let keys: Vec<Vec<u8>> = (0..3).map(|_| rng.bytes(16)).collect();
@@ -1552,6 +2007,100 @@ fn main() {
     it.exec(&mut s, &format!("big {SKIP_ABOVE}"));
     it.exec(&mut s, &format!("big {}", SKIP_ABOVE + 1));
     s.case(Some("big"));
+
+    // ---- "comparison weaker than equality": for every integrity check, every byte VALUE at every
+    // position of the stored digest and of a small protected region (sampled positions of larger
+    // ones), and two-byte substitutions whose differences cancel under XOR / sum / difference folds.
+    // (Placed after the sections above so that their random streams are unchanged.)
+    {
+        let cat = |a: Vec<(usize, usize)>, b: Vec<(usize, usize)>| -> Vec<(usize, usize)> { a.into_iter().chain(b).collect() };
+        // .lru: 0 entries — the whole 28-byte file; 1 entry — the stored MD5 and sampled other bytes
+        let d = gen_lru(&mut rng, 0, 1);
+        let pr = cat(pairs_in(4, 20), random_pairs(&mut rng, 0, d.len(), 24));
+        family_case(&mut s, &mut it, &mut rng, format!("begin lru {}", hex(&d)), &(0..d.len()).collect::<Vec<_>>(), &pr);
+        let d = gen_lru(&mut rng, 1, 1);
+        let mut at: Vec<usize> = if th { (0..d.len()).collect() } else { (4..20).collect() };
+        if !th {
+            at.extend(random_positions(&mut rng, 0, 4, 1));
+            at.extend(random_positions(&mut rng, 20, d.len(), 8));
+        }
+        let pr = cat(random_pairs(&mut rng, 4, 20, 30), random_pairs(&mut rng, 0, d.len(), 40));
+        family_case(&mut s, &mut it, &mut rng, format!("begin lru {}", hex(&d)), &at, &pr);
+        // local headers: all 30 bytes; pairs inside the two checksums, pairs in the same XOR lane
+        // (positions 4 apart: they cancel in checksum B by design and must be caught by checksum A)
+        for base in if th { vec![0usize, 30, 61, 90, 1_000_003] } else { vec![0usize, 61, 1_000_003] } {
+            let h = LocalHeader::new(rng.bytes(16).try_into().unwrap(), rng.below(1 << 31) as u32, base);
+            let d = h.to_bytes().to_vec();
+            let lanes: Vec<(usize, usize)> = (0..26usize).flat_map(|i| (1..=6usize).map(move |k| (i, i + 4 * k))).filter(|(_, j)| *j < 30).collect();
+            let pr = cat(cat(pairs_in(22, 30), lanes), random_pairs(&mut rng, 0, 30, 20));
+            family_case(&mut s, &mut it, &mut rng, format!("begin lhdr {base} {}", hex(&d)), &(0..30).collect::<Vec<_>>(), &pr);
+        }
+        // segment header block: one sampled position per bucket header, pairs inside one header
+        {
+            let d = SegmentHeader::generate(rng.below(1023) as u16, &rng.bytes(16).try_into().unwrap()).to_bytes().to_vec();
+            let at: Vec<usize> = (0..16usize).map(|i| i * 30 + rng.below(30) as usize).collect();
+            let pr: Vec<(usize, usize)> = (0..16usize).flat_map(|i| random_pairs(&mut rng, i * 30, i * 30 + 30, 2)).collect();
+            family_case(&mut s, &mut it, &mut rng, format!("begin seg {}", hex(&d)), &at, &pr);
+        }
+        // update sections: every byte of the first slot (guard + hashed bytes); guard of a later slot
+        {
+            let d = gen_upd(&mut rng, 1);
+            let pr = cat(pairs_in(0, 4), random_pairs(&mut rng, 0, 23, 24));
+            family_case(&mut s, &mut it, &mut rng, format!("begin upd {}", hex(&d)), &(0..23).collect::<Vec<_>>(), &pr);
+            let d = gen_upd(&mut rng, 5);
+            let mut at: Vec<usize> = (48..52).collect();
+            at.extend(random_positions(&mut rng, 52, 71, 4));
+            let pr = cat(pairs_in(48, 52), random_pairs(&mut rng, 48, 71, 12));
+            family_case(&mut s, &mut it, &mut rng, format!("begin upd {}", hex(&d)), &at, &pr);
+        }
+        // archive-index footers: the 12 hashed field bytes and the 8 stored hash bytes, both entry
+        // points, plus IndexFooter::is_valid by itself (`fvalid`) on every mutated footer
+        for (ks, ob, n, chunked) in [(16u8, 4u8, 0usize, false), (9, 5, 50, false), (16, 4, 58, true)] {
+            let d = gen_aidx(&mut rng, ks, ob, n);
+            let len = d.len();
+            let pr = cat(pairs_in(len - 8, len), random_pairs(&mut rng, len - 20, len, 30));
+            family_case(&mut s, &mut it, &mut rng, format!("begin {} {}", if chunked { "aidxc" } else { "aidx" }, hex(&d)), &(len - 20..len).collect::<Vec<_>>(), &pr);
+        }
+        // encoding table (two 1 KiB pages): the whole stored checksum of the CKey page, sampled bytes of
+        // the EKey checksum and of both pages
+        {
+            let d = gen_enc(&mut rng, true);
+            let prot = protected_ranges("enc", &d);
+            let sums: Vec<(usize, usize)> = prot.iter().filter(|(lo, hi)| hi - lo == 16).copied().collect();
+            let pages: Vec<(usize, usize)> = prot.iter().filter(|(lo, hi)| hi - lo != 16).copied().collect();
+            let mut at: Vec<usize> = (sums[0].0..sums[0].1).collect();
+            let mut pr = if th { pairs_in(sums[0].0, sums[0].1) } else { random_pairs(&mut rng, sums[0].0, sums[0].1, 40) };
+            if let Some((lo, hi)) = sums.last().copied().filter(|_| sums.len() > 1) {
+                at.extend(random_positions(&mut rng, lo, hi, if th { 16 } else { 3 }));
+                pr.extend(random_pairs(&mut rng, lo, hi, 12));
+            }
+            for (lo, hi) in &pages {
+                // (the used part of a page is at its start; the rest is padding, hashed all the same)
+                at.extend(random_positions(&mut rng, *lo, lo + 64, 2));
+                at.extend(random_positions(&mut rng, *lo, *hi, 1));
+                pr.extend(random_pairs(&mut rng, *lo, *hi, 6));
+            }
+            family_case(&mut s, &mut it, &mut rng, format!("begin enc {}", hex(&d)), &at, &pr);
+        }
+        // V1 response: every value at each of the 64 stored digits (non-hex values damage the line:
+        // the fail-open finding), sampled message bytes, cancelling pairs of digits
+        {
+            let d = gen_v1(&mut rng, 0);
+            let st = stored_ranges("v1", &d)[0];
+            // the digits are text: at every one of the 64 positions every other hex digit in both
+            // cases and the characters next to the digit ranges; all 255 values at sampled positions
+            let mut at: Vec<usize> = if th { (st.0..st.1).collect() } else { random_positions(&mut rng, st.0, st.1, 6) };
+            let classes: Vec<u8> = b"0123456789abcdefABCDEF/:@G`g \r\n".iter().copied().chain([0u8, 0x80, 0xFF]).collect();
+            let some: Vec<(usize, Vec<u8>)> = (st.0..st.1).filter(|p| !at.contains(p)).map(|p| (p, classes.clone())).collect();
+            at.extend(random_positions(&mut rng, 0, st.0 - 10, if th { 24 } else { 4 }));
+            let pr = cat(random_pairs(&mut rng, st.0, st.1, if th { 400 } else { 60 }), random_pairs(&mut rng, 0, st.0 - 10, 10));
+            family_case_with(&mut s, &mut it, &mut rng, format!("begin v1 {}", hex(&d)), &at, &some, &pr);
+        }
+        cache_equality_families(&mut s, &mut it, &mut rng, th);
+        // ---- "the bytes returned are not the bytes that were validated"
+        cache_fault_family(&mut s, &mut it, &mut rng, q(2, 12));
+        ml_fault_family(&mut s, &mut it, &mut rng, q(2, 12));
+    }
 
     s.rule = "valid artifacts from the crates' builders (encoding tables with 1 KiB pages, archive indices with key sizes 7/9/16 and offset sizes 4/5/6, .lru files with 0–20 entries, update sections with 1–23 entries, local headers at five base offsets, segment header blocks, V1 responses plain/multipart/upper-case checksum, and V1 responses whose checksummed bytes themselves contain 1–4 occurrences of the text `Checksum: ` — free text / empty / 63, 64, 65 digits / upper case / all zero / a nested line valid for its own prefix, placed in a header value, at a line start, mid-line at the end of a row, mid-line followed by more text, in the MIME preamble / epilogue or glued to the real line, with line ends CRLF / LF / none: 9 fixed shapes + random ones) × single-bit flips (exhaustive over the protected region for artifacts ≤ 4 KiB in thorough; always exhaustive over .lru files, local headers, index footers, checksum fields, the 22 encoding header bytes and every `Checksum: ` occurrence of a V1 response), byte substitutions (0x00, 0xFF, +1, random; every value for local headers in thorough), truncations and insertions at protected-range boundaries (V1: cuts at the start / end of every `Checksum: ` occurrence and line); cache histories of put_with_validation / put_to_layer / overwrite-backing-file / get_with_validation / ContentAddressedCache put/corrupt/get; evaluations = mutated artifacts + cache histories; non-trivial = acceptor got past its length guards (any response except err:io / none) resp. history reached a hit or a validation error; distinct = canonical (kind, base prefix, request) text".into();
     s.finish();
